@@ -30,7 +30,10 @@ MANIFEST = {
 HOSTS = ["cfg0.example", "cfg1.example", "svc0.example", "svc1.example", "svc2.example"]
 PATHS = ["/ofx", "/bank", "/cc"]
 UAS = ["InetClntApp/3.0", "VerifAgent/1.0"]
-ORGFID = [(None, None), ("ORG1", "FID1"), ("ORG2", "FID2"), ("ORG1", None)]
+# (org, fid) as indices into client_harness.ORGS / FIDS: plain tokens, then identities as the bundled fi.cfg has them (dotted ORG shared by
+# two FIDs, dashes, blanks, '&', non-ASCII, leading dot, decimal point).  Pairs that render to the SAME '<org>-<fid>' text are C15's subject
+# (recorded finding there) and are not generated here.
+ORGFID = [(None, None), (1, 1), (2, 2), (1, None), (3, 3), (3, 4), (4, 8), (4, 5), (6, 6), (8, 7), (9, 11), (13, 11), (7, 11), (7, 8)]
 KINDS = ["profile", "stmt", "acct", "tax"]
 MODES = ["dry", "skip", "normal"]
 COOKIE_NAMES = {"sid": 1, "lb": 2}
@@ -86,7 +89,8 @@ def c_response(a):
 
 
 def c_cfg(c):
-    return "(Cfg %s %d %s %s %s %d)" % (c_url(c["url"]), c["user"], c_optn(c["org"]), c_optn(c["fid"]), C.cbool(c["persist"]), c["ua"])
+    k = H.model_key(c["org"], c["fid"])      # the model's cache key = the file name the configuration renders to
+    return "(Cfg %s %d %s %s %s %d)" % (c_url(c["url"]), c["user"], c_optn(k[0]), c_optn(k[1]), C.cbool(c["persist"]), c["ua"])
 
 
 def c_op(o):
@@ -122,25 +126,26 @@ def c_case(case, obs):
 def gen_case(rng, shape=None):
     """a configuration of 1-3 clients + a sequence of <= 8 calls + the seed of the server's choices."""
     ncl = rng.choice([1, 1, 2, 2, 3])
-    shape = shape or rng.choice(["plain", "plain", "plain", "shared-none", "same-fi", "distinct-fi"])
+    shape = shape or rng.choice(["plain", "plain", "plain", "shared-none", "same-fi", "distinct-fi", "dotted-org"])
     cfgs = []
     for k in range(ncl):
         if shape == "shared-none":      # finding 18's input class: no ORG/FID, different URLs
             orgfid, u = (None, None), (k % 2, 0)
         elif shape == "same-fi":        # several instances configured for one institution and server
-            orgfid, u = ("ORG1", "FID1"), (0, 0)
+            orgfid, u = (1, 1), (0, 0)
+        elif shape == "dotted-org":     # fi.cfg: msdw.com/1235 and msdw.com/14137 are different servers
+            orgfid, u = (3, 3 + k % 2), (k % 2, 0)
         elif shape == "distinct-fi":
             orgfid, u = ORGFID[1 + k % 3], (k % 2, 0)
         else:
             orgfid = rng.choice(ORGFID)
             u = (rng.choice([0, 1]), 0)
-        cfgs.append({"url": u, "user": rng.choice([0, 1, 2, 3]), "org": None if orgfid[0] is None else int(orgfid[0][-1]),
-                     "fid": None if orgfid[1] is None else int(orgfid[1][-1]), "persist": rng.random() < 0.85, "ua": rng.choice([0, 0, 1])})
+        cfgs.append({"url": u, "user": rng.choice([0, 1, 2, 3]), "org": orgfid[0], "fid": orgfid[1], "persist": rng.random() < 0.85, "ua": rng.choice([0, 0, 1])})
     # the model's key is (org, fid): make clients that share a key while the property's precondition (same server) fails only in shape shared-none
     if shape != "shared-none":
         seen = {}
         for c in cfgs:
-            k = (c["org"], c["fid"])
+            k = H.model_key(c["org"], c["fid"])
             if k in seen:
                 c["url"] = seen[k]
             seen[k] = c["url"]
@@ -250,8 +255,7 @@ class Server:
 
 
 def make_client(L, c):
-    of = lambda n, pre: None if n is None else "%s%d" % (pre, n)
-    return L.OFXClient(url_str(c["url"]), userid=user_str(c["user"]), org=of(c["org"], "ORG"), fid=of(c["fid"], "FID"),
+    return L.OFXClient(url_str(c["url"]), userid=user_str(c["user"]), org=H.org_str(c["org"]), fid=H.fid_str(c["fid"]),
                        useragent=UAS[c["ua"]] if c["ua"] else None, persist_cookies=c["persist"], bankid="123456789")
 
 
@@ -271,8 +275,9 @@ def call_op(L, cl, o, force_dry=False):
 
 def dir_snapshot(d):
     out = {}
-    for p in sorted(glob.glob(os.path.join(d, "**", "*"), recursive=True)):
-        if os.path.isfile(p):
+    for root, _dirs, files in os.walk(d):          # not glob: a leading dot in an ORG makes a hidden file
+        for f in files:
+            p = os.path.join(root, f)
             out[os.path.relpath(p, d)] = open(p, "rb").read()
     return out
 
@@ -370,7 +375,7 @@ def run_case(case, workdir):
                         if rq.url != want:
                             fail("credentials:not-to-configured-url-under-skip_profile", "went to %s, configured %s" % (rq.url, want), op=i)
                     else:
-                        own = sent_to.get((url_str(cfg["url"]), (cfg["org"], cfg["fid"])), [])
+                        own = sent_to.get((url_str(cfg["url"]), H.model_key(cfg["org"], cfg["fid"])), [])
                         newest = None
                         for p in own:
                             if newest is None or p["date"] >= newest["date"]:
@@ -399,7 +404,7 @@ def run_case(case, workdir):
                     for n, v in a["cookies"]:
                         cookie_set[k].setdefault(rq.host, {})["sid" if n == 1 else "lb"] = "v%d" % v
                     if a["payload"] == "profile" and a["status"] == 200 and kind == "profile":
-                        sent_to.setdefault((rq.url, (cfg["org"], cfg["fid"])), []).append(a["profile"])
+                        sent_to.setdefault((rq.url, H.model_key(cfg["org"], cfg["fid"])), []).append(a["profile"])
             # ---------------- the property, call by call ----------------
             n = len(net.log)
             if o["mode"] == "dry" and n:
@@ -419,11 +424,8 @@ def run_case(case, workdir):
         jars.append(sorted(jar))
     cache = []
     for name, data in sorted(dir_snapshot(cachedir).items() if os.path.isdir(cachedir) else []):
-        m = name[:-len(".profrs")].split("-") if name.endswith(".profrs") else None
-        if not m or len(m) != 2:
-            cache.append(((999, 999), 999999)); continue
-        kf = lambda s, pre: None if s == "None" else (int(s[len(pre):]) if s.startswith(pre) and s[len(pre):].isdigit() else 999)
-        cache.append(((kf(m[0], "ORG"), kf(m[1], "FID")), srv.profiles.get(data, 999999)))
+        k = H.key_of_file(name)
+        cache.append(((999, 999) if k is None else k, srv.profiles.get(data, 999999)))
     world = []
     for a in srv.world:
         b = {k: v for k, v in a.items() if k != "profile"}
